@@ -309,16 +309,42 @@ func descriptors(maxLen int) {
 			stacks = append(stacks, st)
 		}
 	}
-	for _, st := range stacks {
-		b := fpgo.NewSortDescriptorsBuilder[Row]()
+	// All builders are derived before any of them is used, and every stack that extends the same prefix is
+	// derived from the one builder value of that prefix (a builder is a value: deriving a second stack from
+	// a prefix must not change the first).
+	root := fpgo.NewSortDescriptorsBuilder[Row]()
+	memo := map[string]fpgo.SortDescriptorsBuilder[Row]{"": root}
+	var derive func(keys []int, asc []bool) fpgo.SortDescriptorsBuilder[Row]
+	derive = func(keys []int, asc []bool) fpgo.SortDescriptorsBuilder[Row] {
+		sig := fmt.Sprint(keys, asc)
+		if len(keys) == 0 {
+			return root
+		}
+		if b, ok := memo[sig]; ok {
+			return b
+		}
+		n := len(keys) - 1
+		b := specs[keys[n]].add(derive(keys[:n], asc[:n]), asc[n])
+		memo[sig] = b
+		return b
+	}
+	built := make([]fpgo.SortDescriptorsBuilder[Row], len(stacks))
+	for i, st := range stacks {
+		built[i] = derive(st.keys, st.asc)
+	}
+	for si, st := range stacks {
+		b := built[si]
 		var names []string
 		for i, k := range st.keys {
-			b = specs[k].add(b, st.asc[i])
 			dir := "desc"
 			if st.asc[i] {
 				dir = "asc"
 			}
 			names = append(names, specs[k].name+" "+dir)
+		}
+		if got := len(b.GetSortDescriptors()); got != len(st.keys) {
+			bad("Builder", "stack-length", "the builder derived for %v holds %d descriptors", names, got)
+			continue
 		}
 		cmp := func(a, c Row) int {
 			for i, k := range st.keys {
@@ -384,6 +410,131 @@ func descriptors(maxLen int) {
 						break
 					}
 				}
+			}
+		}
+	}
+}
+
+// RowB has the field names of Row at other positions; RowP rows are sorted through pointers.
+type RowB struct {
+	Pad int
+	K2  fpgo.ComparableString
+	Tag int
+	K1  fpgo.ComparableOrdered[int]
+}
+
+// fieldNameTypes: field-name descriptors resolve the field on the type of the rows they are given: the
+// same names on Row (already sorted above), on RowB (other positions) and on *Row.
+func fieldNameTypes(maxLen int) {
+	type stack struct {
+		keys []string
+		asc  []bool
+	}
+	var stacks []stack
+	for _, ks := range [][]string{{"K1"}, {"K2"}, {"K1", "K2"}, {"K2", "K1"}} {
+		for m := 0; m < 1<<len(ks); m++ {
+			st := stack{keys: ks}
+			for i := range ks {
+				st.asc = append(st.asc, m&(1<<i) != 0)
+			}
+			stacks = append(stacks, st)
+		}
+	}
+	type kv struct {
+		k1  int
+		k2  string
+		tag int
+	}
+	var lists [][]kv
+	var gen func(cur []kv, n int)
+	gen = func(cur []kv, n int) {
+		if len(cur) == n {
+			l := append([]kv{}, cur...)
+			for i := range l {
+				l[i].tag = i
+			}
+			lists = append(lists, l)
+			return
+		}
+		for k1 := 0; k1 < 2; k1++ {
+			for _, k2 := range []string{"a", "b"} {
+				gen(append(cur, kv{k1: k1, k2: k2}), n)
+			}
+		}
+	}
+	for n := 0; n <= maxLen; n++ {
+		gen(nil, n)
+	}
+	cmpKV := func(st stack, a, c kv) int {
+		for i, k := range st.keys {
+			d := a.k1 - c.k1
+			if k == "K2" {
+				d = strings.Compare(a.k2, c.k2)
+			}
+			if !st.asc[i] {
+				d = -d
+			}
+			if d != 0 {
+				return d
+			}
+		}
+		return 0
+	}
+	judge := func(typ string, st stack, in, out []kv) {
+		if len(out) != len(in) {
+			bad("ToSortedList", "permutation", "[]%s by field names %v %v on %v returned %d elements", typ, st.keys, st.asc, in, len(out))
+			return
+		}
+		seen := map[int]bool{}
+		for _, x := range out {
+			if seen[x.tag] || x.tag >= len(in) || x != in[x.tag] {
+				bad("ToSortedList", "permutation", "[]%s by field names %v %v on %v gives %v: not a permutation", typ, st.keys, st.asc, in, out)
+				return
+			}
+			seen[x.tag] = true
+		}
+		for i := 0; i+1 < len(out); i++ {
+			if cmpKV(st, out[i], out[i+1]) > 0 {
+				bad("ToSortedList", "lexicographic|field-name-on-"+typ, "[]%s by field names %v %v on %v gives %v", typ, st.keys, st.asc, in, out)
+				return
+			}
+		}
+	}
+	for _, st := range stacks {
+		bB := fpgo.NewSortDescriptorsBuilder[RowB]()
+		bP := fpgo.NewSortDescriptorsBuilder[*Row]()
+		for i, k := range st.keys {
+			bB = bB.ThenWithFieldName(k, st.asc[i])
+			bP = bP.ThenWithFieldName(k, st.asc[i])
+		}
+		for _, in := range lists {
+			inputs++
+			var rowsB []RowB
+			var rowsP []*Row
+			for _, x := range in {
+				rowsB = append(rowsB, RowB{Pad: 9 - x.tag, K1: fpgo.NewComparableOrdered(x.k1), K2: fpgo.NewComparableString(x.k2), Tag: x.tag})
+				rowsP = append(rowsP, &Row{K1: fpgo.NewComparableOrdered(x.k1), K2: fpgo.NewComparableString(x.k2), K3: 9 - x.tag, Tag: x.tag})
+			}
+			evals += 2
+			var outB []RowB
+			if p := lib.Catch(func() { outB = bB.ToSortedList(rowsB...) }); p != "" {
+				bad("ToSortedList", "panic", "[]RowB by field names %v on %v: %s", st.keys, in, p)
+			} else {
+				var o []kv
+				for _, x := range outB {
+					o = append(o, kv{x.K1.Val, x.K2.Val, x.Tag})
+				}
+				judge("RowB", st, in, o)
+			}
+			var outP []*Row
+			if p := lib.Catch(func() { outP = bP.ToSortedList(rowsP...) }); p != "" {
+				bad("ToSortedList", "panic", "[]*Row by field names %v on %v: %s", st.keys, in, p)
+			} else {
+				var o []kv
+				for _, x := range outP {
+					o = append(o, kv{x.K1.Val, x.K2.Val, x.Tag})
+				}
+				judge("*Row", st, in, o)
 			}
 		}
 	}
@@ -462,6 +613,7 @@ func main() {
 		comp(cfg.n, cfg.parts, nil)
 	}
 	descriptors(rowLen)
+	fieldNameTypes(rowLen)
 	r.Cov["states"] = inputs
 	r.Cov["transitions"] = evals
 	r.Cov["traces_validated_against_impl"] = evals
